@@ -600,51 +600,80 @@ def steps_to_coq(steps: list[Step]) -> str:
 #  verdict "not accepted", never the death of the check)
 
 _WORKER_CODE = r"""
-import sys, struct, onnx
+import sys, struct, pickle, onnx
 inp, out = sys.stdin.buffer, sys.stdout.buffer
+def reply(b):
+    out.write(struct.pack("<I", len(b)) + b); out.flush()
 while True:
-    h = inp.read(4)
-    if len(h) < 4:
+    h = inp.read(5)
+    if len(h) < 5:
         break
-    n = struct.unpack("<I", h)[0]
+    kind, n = h[:1], struct.unpack("<I", h[1:])[0]
     data = inp.read(n)
-    try:
-        onnx.checker.check_model(onnx.ModelProto.FromString(data), full_check=True)
-        msg = b""
-    except Exception as e:
-        msg = (str(e)[:400] or type(e).__name__).encode("utf-8", "replace")
-    out.write(struct.pack("<I", len(msg)) + msg)
-    out.flush()
+    if kind == b"C":
+        try:
+            onnx.checker.check_model(onnx.ModelProto.FromString(data), full_check=True)
+            reply(b"")
+        except Exception as e:
+            reply((str(e)[:400] or type(e).__name__).encode("utf-8", "replace"))
+    else:
+        try:
+            import onnxruntime as ort
+            mbytes, names, vals = pickle.loads(data)
+            so = ort.SessionOptions(); so.log_severity_level = 4
+            so.graph_optimization_level = ort.GraphOptimizationLevel.ORT_DISABLE_ALL
+            s = ort.InferenceSession(mbytes, so, providers=["CPUExecutionProvider"])
+            reply(pickle.dumps(("ok", s.run(None, dict(zip(names, vals))))))
+        except Exception as e:
+            reply(pickle.dumps(("err", str(e)[:300])))
 """
 _worker = None
 
 
-def checker_verdict(mp) -> str | None:
-    """None = accepted; otherwise the rejection message ('CRASH ...' when the checker process died)."""
+def _worker_call(kind: bytes, data: bytes):
+    """-> reply bytes, or None when the worker process died on this request (crash of native code)."""
     global _worker
     import subprocess
     import sys
-    data = mp.SerializeToString()
     for attempt in range(2):
         if _worker is None or _worker.poll() is not None:
             _worker = subprocess.Popen([sys.executable, "-c", _WORKER_CODE], stdin=subprocess.PIPE, stdout=subprocess.PIPE,
                                        stderr=subprocess.DEVNULL)
         try:
-            _worker.stdin.write(struct.pack("<I", len(data)) + data)
+            _worker.stdin.write(kind + struct.pack("<I", len(data)) + data)
             _worker.stdin.flush()
             h = _worker.stdout.read(4)
             if len(h) < 4:
                 raise EOFError
-            n = struct.unpack("<I", h)[0]
-            msg = _worker.stdout.read(n)
-            return msg.decode("utf-8", "replace") if n else None
+            return _worker.stdout.read(struct.unpack("<I", h)[0])
         except (EOFError, BrokenPipeError, OSError):
             rc = _worker.poll()
             _worker = None
             if attempt == 0 and rc is None:
                 continue
-            return f"CRASH onnx.checker process died (exit {rc}) on this model"
-    return "CRASH onnx.checker process died"
+            return None
+    return None
+
+
+def checker_verdict(mp) -> str | None:
+    """None = accepted; otherwise the rejection message ('CRASH ...' when the checker process died)."""
+    r = _worker_call(b"C", mp.SerializeToString())
+    if r is None:
+        return "CRASH onnx.checker process died on this model"
+    return r.decode("utf-8", "replace") if r else None
+
+
+def ort_run(mp, vals):
+    """onnxruntime in the worker process (a crash of native code must not kill the check). Raises on rejection."""
+    import pickle
+    names = [vi.name for vi in G.noninit_inputs(mp)]
+    r = _worker_call(b"O", pickle.dumps((mp.SerializeToString(), names, vals)))
+    if r is None:
+        raise RuntimeError("CRASH onnxruntime process died on this model")
+    tag, val = pickle.loads(r)
+    if tag != "ok":
+        raise RuntimeError(val)
+    return val
 
 # --------------------------------------------------------------------------- oracle
 
@@ -665,7 +694,7 @@ def oracle(spec: dict, passes: list[str], seed: int, protos=None, raised=None, u
     if v0 is not None:
         info["invalid"] = "checker:" + v0[:120]
         return [], info
-    run_exec = G.run_ort if spec.get("judge") == "ort" else G.run_ref
+    run_exec = ort_run if spec.get("judge") == "ort" else G.run_ref
     try:
         vals = G.feeds_for(mp0, seed)
         ref0 = run_exec(mp0, vals)
@@ -705,12 +734,12 @@ def oracle(spec: dict, passes: list[str], seed: int, protos=None, raised=None, u
             bad.append(f"pass-raised: step {i} {name}: {et}({cause}): {msg[:160]}")
     if use_ort and not bad and len(protos) > 1:
         try:
-            o0 = G.run_ort(mp0, vals)
+            o0 = ort_run(mp0, vals)
         except Exception:  # noqa: BLE001
             info["ort"] = "rejects-before"
             return bad, info
         try:
-            o1 = G.run_ort(protos[-1], vals)
+            o1 = ort_run(protos[-1], vals)
         except Exception as e:  # noqa: BLE001
             info["ort"] = "rejects-after"
             info["ort_error"] = str(e)[:200]
